@@ -466,7 +466,55 @@ func runC15(r *simkit.Run) {
 	steps := c.Range(8, 30, "steps")
 	bigJumpDone := false
 	reorgWithAbandonedEvent := false
+	// the keyper marks identities decrypted once their keys are released (the real
+	// UpdateTimeBasedDecryptedFlags / UpdateEventBasedDecryptedFlags); a later reorg must remove
+	// such rows like any other
+	markDecrypted := func() {
+		table := map[string]string{"registry": "identity_registered_event", "multievent": "event_trigger_registered_event"}[kind]
+		if table == "" {
+			return
+		}
+		cols, rows := w.db.Dump(table)
+		if len(rows) == 0 {
+			return
+		}
+		ci := map[string]int{}
+		for i, cn := range cols {
+			ci[cn] = i
+		}
+		row := rows[c.Intn(len(rows), "decrypted-row")]
+		eons := []int64{row[ci["eon"]].(int64)}
+		idents := [][]byte{row[ci["identity"]].([]byte)}
+		done := false
+		w.task(func() {
+			q := servicedb.New(w.pool)
+			var err error
+			if kind == "registry" {
+				err = q.UpdateTimeBasedDecryptedFlags(w.ctx, servicedb.UpdateTimeBasedDecryptedFlagsParams{Eons: eons, Identities: idents})
+			} else {
+				err = q.UpdateEventBasedDecryptedFlags(w.ctx, servicedb.UpdateEventBasedDecryptedFlagsParams{Eons: eons, Identities: idents})
+			}
+			if err != nil {
+				r.Eventf("marking decrypted failed: %v", err)
+			}
+			done = true
+		})
+		for i := 0; i < 100000 && !done; i++ {
+			if !w.s.Step(func(rq *simkit.Req) any {
+				if _, ok := rq.Info.(*pgsim.Request); ok {
+					return pgsim.Proceed
+				}
+				return nil
+			}) && !done {
+				w.s.Idle(10e6)
+			}
+		}
+		r.Probe("rows-marked-decrypted")
+	}
 	for s := 0; s < steps; s++ {
+		if c.Chance(200, "mark-decrypted") {
+			markDecrypted()
+		}
 		switch c.Weighted([]int{10, 2, 4, 1, 2, 6}, "head-op") {
 		case 0: // advance by one
 			head = cw.newBlock(head, false)
